@@ -41,4 +41,38 @@ theorem lp2_le_one (n : Nat) (h : n ≤ 1) : lp2 n = 1 := by
   have : n = 0 ∨ n = 1 := by omega
   rcases this with rfl | rfl <;> decide
 
+theorem lp2_pow2 (n : Nat) : ∃ j, lp2 n = 2 ^ j := by
+  unfold lp2
+  by_cases h0 : n = 0
+  · subst h0; exact ⟨0, by decide⟩
+  · simp only [pow_log2_le n h0]
+    split
+    · rename_i hc
+      simp only [Bool.and_eq_true, beq_iff_eq, decide_eq_true_eq] at hc
+      have h1 : 1 ≤ Nat.log2 n := by
+        rw [Nat.le_log2 h0]; omega
+      refine ⟨Nat.log2 n - 1, ?_⟩
+      rw [Nat.shiftRight_eq_div_pow]
+      obtain ⟨k, hk⟩ : ∃ k, Nat.log2 n = k + 1 := ⟨Nat.log2 n - 1, by omega⟩
+      rw [hk, Nat.pow_succ]
+      simp
+    · exact ⟨_, rfl⟩
+
+/-- `is_power_of_two` is exactly "is 2^j for some j", for every (also negative, zero, huge) integer -/
+theorem isPowerOfTwo_iff (i : Int) : isPowerOfTwo i = true ↔ ∃ j : Nat, i = (2 : Int) ^ j := by
+  unfold isPowerOfTwo
+  simp only [beq_iff_eq, Nat.one_shiftLeft]
+  constructor
+  · intro h
+    obtain ⟨k, hk⟩ : ∃ k, k = bitLength i.natAbs - 1 := ⟨_, rfl⟩
+    rw [← hk] at h
+    exact ⟨k, by rw [← h]; simp⟩
+  · rintro ⟨j, rfl⟩
+    have hn : ((2 : Int) ^ j).natAbs = 2 ^ j := by
+      rw [Int.natAbs_pow]; rfl
+    have hne : (2 : Nat) ^ j ≠ 0 := by
+      have := Nat.one_le_two_pow (n := j); omega
+    rw [hn]
+    simp [bitLength, hne, Nat.log2_two_pow]
+
 end Util
